@@ -12,6 +12,21 @@ fn messy(n_ecus: u8, max: usize) -> impl Strategy<Value = Messy> {
     (prop::collection::vec(ev(n_ecus), 1..max), any::<u16>())
 }
 
+/// the case's messages: 1..3 ECUs, message indices with a stride (the detector refreshes its table every 100000
+/// indices: with stride 1 only the final refresh would ever run)
+fn messy_msgs(v: &Messy) -> Vec<DltMessage> {
+    let n_ecus = 1 + (v.1 / 16) % 3;
+    // (host clock jumps back to 1970 only in a quarter of the cases: they collapse most of the lifecycle structure)
+    let allow_1970 = (v.1 / 64) % 4 == 0;
+    let evs: Vec<Ev> = v.0.iter().map(|e| Ev { ecu: e.ecu % n_ecus as u8, tsmode: if e.tsmode == 10 && !allow_1970 { 0 } else { e.tsmode }, ..e.clone() }).collect();
+    let mut msgs = build_messy(&evs);
+    let stride = [1u32, 30_000, 150_000][(v.1 / 4) as usize % 3];
+    for m in msgs.iter_mut() {
+        m.index *= stride;
+    }
+    msgs
+}
+
 fn same_except_lc(a: &DltMessage, b: &DltMessage) -> bool {
     a.index == b.index
         && a.reception_time_us == b.reception_time_us
@@ -53,7 +68,7 @@ fn c05_invariants(input: &[DltMessage], res: &DetOut) -> Result<(), String> {
 }
 
 fn c05_check(v: &Messy, rep: &mut Rep) -> Result<(), String> {
-    let msgs = build_messy(&v.0);
+    let msgs = messy_msgs(v);
     let paced = v.1 % 4 == 0;
     let (res, _r, _w) = run_detector(msgs.clone(), &DetOpts { cross_thread: false, paced, want_listing: false }, None);
     let (max_per_ecu, merged) = common_labels(&res, rep);
@@ -75,12 +90,16 @@ fn c05_prepop(v: &(Vec<Ev>, u16), rep: &mut Rep) -> Result<(), String> {
     rep.label_if(res1.table.len() >= 2, "prepopulated_ge2");
     let (res2, _r, _w) = run_detector(b.to_vec(), &DetOpts { cross_thread: false, paced: false, want_listing: false }, Some((r, w)));
     rep.nontrivial = res1.table.len() >= 2 && !b.is_empty();
+    // (C06 for the pre-populated table: the lifecycle of every delivered message is visible at delivery)
+    for (i, m) in res2.out.iter().enumerate() {
+        ensure!(res2.vis_same[i], "pre-populated table: message #{} (idx {}) delivered with lifecycle {} not visible at delivery time", i, m.index, m.lifecycle);
+    }
     c05_invariants(b, &res2)
 }
 
 // ----------------------------------------------------------------------------- C06
 fn c06_check(v: &Messy, rep: &mut Rep) -> Result<(), String> {
-    let msgs = build_messy(&v.0);
+    let msgs = messy_msgs(v);
     let paced = v.1 % 2 == 0;
     let (res, _r, _w) = run_detector(msgs.clone(), &DetOpts { cross_thread: true, paced, want_listing: false }, None);
     let (max_per_ecu, merged) = common_labels(&res, rep);
@@ -99,7 +118,7 @@ fn c06_check(v: &Messy, rep: &mut Rep) -> Result<(), String> {
 /// real consumers: time sorter and export plugin (panics on unknown lifecycle) behind a bounded channel
 fn c06_consumers(v: &Messy, rep: &mut Rep) -> Result<(), String> {
     use std::sync::mpsc::sync_channel;
-    let msgs = build_messy(&v.0);
+    let msgs = messy_msgs(v);
     let n = msgs.len();
     let cap = [0usize, 1, 8][(v.1 % 3) as usize];
     let (lcs_r, lcs_w) = new_lc_map();
@@ -195,7 +214,9 @@ fn c07_invariants(res: &DetOut, n: usize) -> Result<(), String> {
 }
 
 fn c07_check(v: &Messy, rep: &mut Rep) -> Result<(), String> {
-    let msgs = build_messy(&v.0);
+    let msgs = messy_msgs(v);
+    rep.label_if(msgs.last().map_or(0, |m| m.index) > 100_000, "periodic_refresh_reached");
+    rep.label_if(msgs.iter().all(|m| m.ecu == msgs[0].ecu), "single_ecu");
     let n = msgs.len();
     let (res, _r, _w) = run_detector(msgs, &DetOpts { cross_thread: false, paced: false, want_listing: true }, None);
     let (_max_per_ecu, merged) = common_labels(&res, rep);
@@ -241,6 +262,7 @@ fn c08_check(v: &Clean, rep: &mut Rep) -> Result<(), String> {
     rep.label_if(unsorted, "unsorted_within_boot");
     rep.label_if(res.table.iter().any(|r| r.is_resume), "resume_flagged");
     rep.label_if(ecus.iter().any(|e| e.boots.iter().any(|b| b.msgs.len() <= 2)), "tiny_boot");
+    rep.label_if(ecus.iter().any(|e| e.boots.iter().any(|b| b.msgs.iter().any(|m| m.ts_dms as u64 * 100 > u32::MAX as u64))), "uptime_gt_2pow32_us");
     rep.nontrivial = (multi_boot && ecus.len() >= 2) || first_zero || unsorted;
     ensure_eq!(res.out.len(), n, "number of forwarded messages");
     // map (ecu, boot) -> id
@@ -433,8 +455,8 @@ pub fn c07(tier: Tier) -> PropertyDef {
         rule: "M-TRACE-MESSY streams; oracle: histogram of delivered lifecycle ids vs. published table (every entry referenced, nr_msgs = count, sum = n, no nr_msgs==0 / value-less entry), listing via get_sorted_lifecycles_as_vec: no panic, permutation of the table, resumed lifecycle (hook resume_origin_id) after its origin, ordered by start time when no resume. Non-trivial: >=3 lifecycles and a merge or a resume.",
         assumptions: vec!["resume origin read through the adlt_verif hook Lifecycle::resume_origin_id"],
         subs: vec![
-            sub("table_short", tier.pick(600_000, 8_000_000), messy(3, 40), c07_check).rates(&[("merge_happened", 0.02), ("has_resume", 0.02)]).boxed(),
-            sub("table_long", tier.pick(40_000, 500_000), messy(2, 400), c07_check).rates(&[("gt20_lifecycles", 0.2), ("has_resume", 0.2), ("resume_start_le_origin_start", 0.02)]).boxed(),
+            sub("table_short", tier.pick(600_000, 8_000_000), messy(3, 40), c07_check).rates(&[("merge_happened", 0.02), ("has_resume", 0.02), ("periodic_refresh_reached", 0.3), ("single_ecu", 0.2)]).boxed(),
+            sub("table_long", tier.pick(40_000, 500_000), messy(2, 400), c07_check).rates(&[("gt20_lifecycles", 0.1), ("has_resume", 0.2), ("resume_start_le_origin_start", 0.02)]).boxed(),
             crate::props::binsubs::c07_sub(tier),
             sub("repo_traces", tier.pick(3_000, 60_000), repo_strategy(), repo_traces).rates(&[("perturbed", 0.5)]).shrink_iters(200).boxed(),
         ],
@@ -447,7 +469,7 @@ pub fn c08(tier: Tier) -> PropertyDef {
         rule: "M-TRACE-CLEAN: 1..4 ECUs x 1..6 boots x 1..40 messages, off-time >= 1 ms after the last reception of the previous boot, per-boot delay 0..120 s, timestamps in any order incl. 0, boot durations up to 4000 s, ECUs interleaved by a choice sequence; oracle = generator ground truth (one lifecycle per boot, every message assigned to its boot, start = boot+delay, end = start+max timestamp, nr_msgs). Non-trivial: (>=2 boots on an ECU and >=2 ECUs) or a boot starting with timestamp 0 or unsorted timestamps within a boot.",
         assumptions: vec!["next boot time >= last reception of the previous boot + off (see DESIGN 4/C08 domain note)"],
         subs: vec![
-            sub("clean_exact", tier.pick(500_000, 8_000_000), clean(4, 6, 40), c08_check).rates(&[("ge2_boots", 0.4), ("ge2_ecus", 0.4), ("first_timestamp_zero", 0.1), ("unsorted_within_boot", 0.3), ("tiny_boot", 0.1)]).boxed(),
+            sub("clean_exact", tier.pick(500_000, 8_000_000), clean(4, 6, 40), c08_check).rates(&[("ge2_boots", 0.4), ("ge2_ecus", 0.4), ("first_timestamp_zero", 0.1), ("unsorted_within_boot", 0.3), ("tiny_boot", 0.1), ("resume_flagged", 0.03), ("uptime_gt_2pow32_us", 0.03)]).boxed(),
         ],
         workers: 16,
     }
